@@ -366,8 +366,10 @@ func (p *Pop) Step(r *rand.Rand) string {
 			if p.find(d, name) >= 0 {
 				continue
 			}
-			if f.Link == "rel" && d != f.Phys {
-				continue // (a relative link moved to another directory would dangle: not the case at hand)
+			if f.Link != "" && d != f.Phys {
+				// (a relative link moved to another directory would dangle at once, an absolute one
+				// as soon as the directory holding its data goes away: not the case at hand)
+				continue
 			}
 			oldPath := p.path(f)
 			nf := *f
